@@ -423,6 +423,7 @@ func levelLicence(c *km.Ctx, s *km.Sem, k km.Conj, isListed func(ssa.Value) bool
 	}
 	var listed []string
 	var bits []int64
+	var tableTests []*ssa.Lookup
 	bitFact := func(f km.Fact, resolve func(ssa.Value) ssa.Value) {
 		b, isB := f.X.(*ssa.BinOp)
 		if !isB || b.Op != token.AND {
@@ -439,6 +440,10 @@ func levelLicence(c *km.Ctx, s *km.Sem, k km.Conj, isListed func(ssa.Value) bool
 		}
 		kv, isK := constOf(resolve(kval))
 		if !isK {
+			// the required bit looked up in a table keyed by the listed name
+			if lk := tableLookupOf(resolve(kval)); lk != nil && f.Op == token.EQL && km.Unwrap(resolve(f.Y)) == km.Unwrap(resolve(kval)) {
+				tableTests = append(tableTests, lk)
+			}
 			return
 		}
 		if f.Op == token.EQL {
@@ -467,6 +472,31 @@ func levelLicence(c *km.Ctx, s *km.Sem, k km.Conj, isListed func(ssa.Value) bool
 		return false
 	}})
 	good := false
+	tableNote := ""
+	for _, lk := range tableTests {
+		// level & table[listed] == table[listed]: a licence when the name is known to the table (comma-ok true, or
+		// the looked-up bit is non-zero) and the table maps every method name to the bit of the same constant name
+		if !isListed(lk.Index) {
+			continue
+		}
+		present := false
+		for _, f := range k.List() {
+			ex, isEx := f.X.(*ssa.Extract)
+			if lk.CommaOk && isEx && ex.Tuple == ssa.Value(lk) && ex.Index == 1 && f.Op == token.ILLEGAL && f.Pol {
+				present = true
+			}
+			if f.Op == token.NEQ && tableLookupOf(f.X) == lk {
+				if z, isZ := km.ConstInt(f.Y); isZ && z == 0 {
+					present = true
+				}
+			}
+		}
+		okTab, why := levelTableConsistent(c, lk, protoByVal, mainByVal)
+		tableNote = sprintf(" table(present=%v consistent=%v %s)", present, okTab, why)
+		if present && okTab {
+			good = true
+		}
+	}
 	for _, l := range listed {
 		if protoByVal[l] == "AuthTypePassword" {
 			good = true
@@ -489,7 +519,97 @@ func levelLicence(c *km.Ctx, s *km.Sem, k km.Conj, isListed func(ssa.Value) bool
 			ub = append(ub, b)
 		}
 	}
-	return sprintf("listed=%v bits=%v ok=%v", listed, bitNames(ub, mainByVal), good), good
+	return sprintf("listed=%v bits=%v%s ok=%v", listed, bitNames(ub, mainByVal), tableNote, good), good
+}
+
+// tableLookupOf: v is the value (or the value half of a comma-ok pair) of a lookup in a package-level map.
+func tableLookupOf(v ssa.Value) *ssa.Lookup {
+	v = km.Unwrap(v)
+	if ex, ok := v.(*ssa.Extract); ok && ex.Index == 0 {
+		v = ex.Tuple
+	}
+	lk, ok := v.(*ssa.Lookup)
+	if !ok {
+		return nil
+	}
+	if u, ok := km.Unwrap(lk.X).(*ssa.UnOp); ok {
+		if _, isG := u.X.(*ssa.Global); isG {
+			return lk
+		}
+	}
+	return nil
+}
+
+// levelTableConsistent: the package-level map the lookup reads is filled only in its package initialiser, with
+// constant method names mapped to the non-zero session bit whose constant has the same name (proto.AuthTypeX ->
+// AuthTypeX), and nothing else in the module writes to it.
+func levelTableConsistent(c *km.Ctx, lk *ssa.Lookup, protoByVal map[string]string, mainByVal map[int64]string) (bool, string) {
+	g := km.Unwrap(lk.X).(*ssa.UnOp).X.(*ssa.Global)
+	if g.Pkg == nil {
+		return false, "no package"
+	}
+	initFn := g.Pkg.Func("init")
+	if initFn == nil {
+		return false, "no initialiser"
+	}
+	var m ssa.Value
+	stores := 0
+	for _, fn := range c.P.AllFuncs {
+		km.Instrs(fn, func(in ssa.Instruction) {
+			if st, ok := in.(*ssa.Store); ok && st.Addr == ssa.Value(g) {
+				stores++
+				if fn == initFn {
+					m = km.Unwrap(st.Val)
+				}
+			}
+		})
+	}
+	if m == nil || stores != 1 {
+		return false, sprintf("assigned %d times", stores)
+	}
+	n := 0
+	bad := ""
+	for _, fn := range c.P.AllFuncs {
+		km.Instrs(fn, func(in ssa.Instruction) {
+			mu, ok := in.(*ssa.MapUpdate)
+			if !ok {
+				return
+			}
+			mm := km.Unwrap(mu.Map)
+			fromG := false
+			if u, isU := mm.(*ssa.UnOp); isU && u.X == ssa.Value(g) {
+				fromG = true
+			}
+			if mm != m && !fromG {
+				return
+			}
+			if fn != initFn {
+				bad = "written in " + km.FuncName(fn)
+				return
+			}
+			ks, ok1 := km.ConstString(mu.Key)
+			v, ok2 := km.ConstInt(mu.Value)
+			if !ok1 || !ok2 || v == 0 || protoByVal[ks] == "" || protoByVal[ks] != mainByVal[v] {
+				bad = sprintf("entry %q -> %v", ks, km.ValStr(mu.Value))
+				return
+			}
+			n++
+		})
+	}
+	// builtin delete on the table
+	for _, fn := range c.P.AllFuncs {
+		for _, ci := range km.CallsIn(fn) {
+			if km.CalleeFull(ci.Common()) == "builtin:delete" {
+				if u, isU := km.Unwrap(ci.Common().Args[0]).(*ssa.UnOp); isU && u.X == ssa.Value(g) {
+					bad = "entries deleted in " + km.FuncName(fn)
+				}
+			}
+		}
+	}
+	if bad != "" {
+		return false, bad
+	}
+	return n > 0, sprintf("%d entries", n)
 }
 
 // findLevelDecision: when the level test lives in a helper, the call in the handler whose boolean result decides
